@@ -44,7 +44,7 @@ var c01 = Register("C01", "C01.addsub", func(a c01Args) *Violation {
 
 	nontrivial := false
 	var klass string
-	for _, m := range ref.Modes {
+	for _, m := range loopModes() {
 		var got d128.Decimal
 		if a.Sub {
 			got = x.SubWithMode(y, m)
